@@ -60,6 +60,15 @@ func (m c05) Run(ctx *core.Ctx) {
 		ctx.Begin(cs)
 		m.Exec(ctx, cs)
 	}
+	// giant setter values just beyond power-of-two sizes (a size guard must not leave a setter half done)
+	if ctx.Shard < 6 {
+		size := giantSizes(ctx.Tier)[ctx.Shard%len(giantSizes(ctx.Tier))]
+		st := []string{"pathname", "search", "pathname", "host", "pathname", "hash"}[ctx.Shard]
+		val := map[string]string{"pathname": strings.Repeat("/a", size/2+1), "search": strings.Repeat("a=b&", size/4+1), "host": strings.Repeat("a.", size/2+1), "hash": strings.Repeat("a", 1<<16+1)}[st]
+		cs := &core.Case{Check: "giant-setter", Input: core.S(gen.Pick(r, []string{"https://example.org/a/b?q=1#frag", "a://h/p?q#f"})), Ops: []core.Op{sOp(st, val), sOp("port", "81")}}
+		ctx.Begin(cs)
+		m.Exec(ctx, cs)
+	}
 	// pairwise block
 	items := pairItems()
 	total := int64(len(gen.StartPool)) * int64(len(items)) * int64(len(items))
